@@ -25,6 +25,7 @@ RULE = ('(a) round_up_str_num: ALL strings [integer part: every string of 0-4 di
         'a minute/hour boundary or with a residue below 1e-4, (c) a text with >= 2 fields; distinct inputs')
 ASSUMPTIONS = ['"noise beyond the fifth decimal" is given the stated tolerance 1e-5 on the lower bound of (b)',
                'float results of parse_hms are compared with the exact sexagesimal sum to 1e-9 relative']
+RULE = RULE + '; also fields dressed the way int() tolerates, fields beyond 2**53 and of hundreds of digits, number carriers of parse_hms, int durations at every precision and left-out precisions'
 
 FRAC_DIGITS = '01459'
 INT_DIGITS = '019'
